@@ -15,7 +15,9 @@ subprocess.run(["git", "-C", "/repo", "worktree", "add", "-q", "--detach", repo,
 ran = []
 try:
     env = dict(os.environ, PYTHONPATH=repo, PYTHONDONTWRITEBYTECODE="1")
-    shutil.copy(os.path.join(src, "demo.py"), os.path.join(d, "demo.py"))  # script dir must not hold a cobyqa
+    # script dir must not hold a cobyqa; demos that assert where cobyqa was imported from are re-pointed
+    txt = open(os.path.join(src, "demo.py")).read().replace(src.rstrip("/"), repo)
+    open(os.path.join(d, "demo.py"), "w").write(txt)
 
     def demo():
         p = subprocess.run(["/venv/bin/python", os.path.join(d, "demo.py")], cwd=d, env=env, capture_output=True, text=True, timeout=1800)
